@@ -1,5 +1,11 @@
 pub mod c01;
+pub mod c03;
+pub mod c04;
+pub mod c11;
 pub mod c12;
+pub mod c13;
+pub mod c14;
+pub mod c16;
 
 use crate::exec::{Outcome, Scenario, Stats};
 use crate::prng::Digest;
@@ -8,19 +14,48 @@ pub struct Config {
     pub kind: &'static str,
     pub quick: u64,
     pub thorough: u64,
+    /// the configuration enumerates a finite space completely
+    pub exhaustive: bool,
+}
+
+fn c(kind: &'static str, quick: u64, thorough: u64) -> Config {
+    Config { kind, quick, thorough, exhaustive: false }
+}
+
+fn e(kind: &'static str) -> Config {
+    Config {
+        kind,
+        quick: c04::enum_total(kind, false),
+        thorough: c04::enum_total(kind, true),
+        exhaustive: true,
+    }
 }
 
 pub fn configs(prop: &str) -> Vec<Config> {
     match prop {
-        "C01" => vec![
-            Config { kind: "generated", quick: 4000, thorough: 120_000 },
-            Config { kind: "corpus", quick: 52, thorough: 520 },
+        "C01" => vec![c("generated", 20_000, 600_000), c("corpus", 104, 1040)],
+        "C03" => vec![
+            c("byzantine", 6_000, 200_000),
+            c("boundary", 6_000, 200_000),
+            c("corpus", 104, 1040),
+            c("threads", 600, 20_000),
         ],
+        "C04" => vec![
+            e("truncate_all"),
+            e("lose_range_all"),
+            e("remnants"),
+            c("storage", 40_000, 1_500_000),
+            c("text", 40_000, 1_500_000),
+        ],
+        "C11" => vec![c("backends", 8_000, 250_000), c("typed", 6_000, 150_000)],
         "C12" => vec![
-            Config { kind: "hash", quick: 3000, thorough: 60_000 },
-            Config { kind: "history", quick: 3000, thorough: 60_000 },
-            Config { kind: "threads", quick: 1500, thorough: 30_000 },
+            c("hash", 10_000, 300_000),
+            c("history", 10_000, 300_000),
+            c("threads", 4_000, 120_000),
         ],
+        "C13" => vec![c("validate", 12_000, 400_000), c("torn", 12_000, 400_000)],
+        "C14" => vec![c("roundtrip", 10_000, 300_000), c("torn", 4_000, 100_000)],
+        "C16" => vec![c("reads", 10_000, 300_000), c("meta", 6_000, 200_000)],
         _ => vec![],
     }
 }
@@ -28,7 +63,13 @@ pub fn configs(prop: &str) -> Vec<Config> {
 pub fn generate(prop: &str, kind: &str, seed: u64, run: u64, thorough: bool) -> Scenario {
     match prop {
         "C01" => c01::generate(kind, seed, run, thorough),
+        "C03" => c03::generate(kind, seed, run, thorough),
+        "C04" => c04::generate(kind, seed, run, thorough),
+        "C11" => c11::generate(kind, seed, run, thorough),
         "C12" => c12::generate(kind, seed, run, thorough),
+        "C13" => c13::generate(kind, seed, run, thorough),
+        "C14" => c14::generate(kind, seed, run, thorough),
+        "C16" => c16::generate(kind, seed, run, thorough),
         _ => Scenario::default(),
     }
 }
@@ -36,7 +77,13 @@ pub fn generate(prop: &str, kind: &str, seed: u64, run: u64, thorough: bool) -> 
 pub fn execute(sc: &Scenario) -> Outcome {
     match sc.property.as_str() {
         "C01" => c01::execute(sc),
+        "C03" => c03::execute(sc),
+        "C04" => c04::execute(sc),
+        "C11" => c11::execute(sc),
         "C12" => c12::execute(sc),
+        "C13" => c13::execute(sc),
+        "C14" => c14::execute(sc),
+        "C16" => c16::execute(sc),
         _ => Outcome::clean(&Digest::new(), Stats::default()),
     }
 }
